@@ -209,6 +209,16 @@ func (s *Service) OnCommit(ctx context.Context, _ uint64, account string, confir
 		return nil, nil, fmt.Errorf("have %d contributions, need %d, aborting", len(generation.sharedVVecs), len(generation.participants))
 	}
 
+	// Every listed participant must have contributed (the counts above can agree without this being so,
+	// for example if this instance is not itself in the list).
+	for _, participant := range generation.participants {
+		_, haveSecret := generation.sharedSecrets[participant.ID]
+		_, haveVVec := generation.sharedVVecs[participant.ID]
+		if !haveSecret || !haveVVec {
+			return nil, nil, fmt.Errorf("no contribution from participant %d, aborting", participant.ID)
+		}
+	}
+
 	privateKey := bls.SecretKey{}
 	for k := range generation.sharedSecrets {
 		sharedSecret := generation.sharedSecrets[k]
@@ -298,6 +308,19 @@ func (s *Service) OnContribute(ctx context.Context,
 	generation, err := s.getGeneration(ctx, account)
 	if err != nil {
 		return bls.SecretKey{}, nil, err
+	}
+
+	// Contributions are only expected from the participants of this generation.
+	isParticipant := false
+	for _, participant := range generation.participants {
+		if participant.ID == senderID {
+			isParticipant = true
+			break
+		}
+	}
+	if !isParticipant {
+		log.Warn().Uint64("sender", senderID).Str("account", account).Msg("Received contribution from non-participant")
+		return bls.SecretKey{}, nil, fmt.Errorf("contribution from non-participant %d", senderID)
 	}
 
 	// The verification vector must have exactly one entry per coefficient of the polynomial, i.e.
